@@ -31,7 +31,7 @@ def tree_hash(repo=None):
         ["git", "-C", repo, "ls-files", "-co", "--exclude-standard"], text=True
     ).splitlines()
     h = hashlib.sha256()
-    h.update(b"EXTRACT_VERSION 2\0")  # bump when the set of extracted units changes
+    h.update(b"EXTRACT_VERSION 3\0")  # bump when the set of extracted units changes
     # the driver itself is part of what the facts depend on
     for extra in (os.path.join(VERIF, "mirx", "src", "main.rs"),):
         with open(extra, "rb") as f:
@@ -117,7 +117,13 @@ def extract_rust_template(fdir):
             '[package]\nname = "mimium_rust_template"\nversion = "0.0.0"\nedition = "2024"\n'
             '[lib]\npath = "src/lib.rs"\n[workspace]\n'
         )
-    shutil.copy(src, os.path.join(tdir, "src", "lib.rs"))
+    text = open(src).read()
+    # The dispatch marker sits inside a `match` whose remaining arms diverge; left empty, everything after the match
+    # (the epilogue that unwinds the closure-state stack and restores the caller's function state) is dead code and
+    # absent from the MIR.  A stand-in arm that returns normally keeps the epilogue analysable.
+    text = text.replace("/*__HANDLE_DISPATCH__*/", "            Some(index) if index == 0 && args.is_empty() => Vec::new(),")
+    with open(os.path.join(tdir, "src", "lib.rs"), "w") as f:
+        f.write(text)
     shutil.rmtree(os.path.join(tdir, "target", "debug", ".fingerprint"), ignore_errors=True)
     run_driver(tdir, fdir, os.path.join(tdir, "target"), os.path.join(fdir, "template-build.log"), extra_args=())
 
